@@ -91,8 +91,23 @@ def gen_copies(r, gene, n):
     tand = [x for t in gene.common_tandems for x in t]
     copies = []
     allm = list(gene.mutations)
-    for _ in range(n):
-        if tand and r.random() < 0.35:
+    # tandems that share a member (CYP2D6: 13/76 with 1, 77/78/79 with 2, 36/57 with 10): both partners and fewer
+    # copies of the shared allele than partners - a copy must be consumed by the first tandem only
+    forced = []
+    shared = [(t1, t2) for t1 in gene.common_tandems for t2 in gene.common_tandems if t1 != t2 and set(t1) & set(t2)]
+    if shared and n >= 3 and r.random() < 0.4:
+        t1, t2 = r.choice(shared)
+        keys = list(dict.fromkeys(list(t1) + list(t2)))
+        if r.random() < 0.5:
+            keys += [r.choice(keys)]
+        for key in keys[:n]:
+            cands = [m for m in pool if real_key(m) == key]
+            if cands:
+                forced.append(r.choice(cands))
+    for k_ in range(n):
+        if k_ < len(forced):
+            ma = forced[k_]
+        elif tand and r.random() < 0.35:
             key = r.choice(tand)
             cands = [m for m in pool if real_key(m) == key] or pool
             ma = r.choice(cands)
